@@ -528,3 +528,16 @@ Definition C10_listener_ok (hs : list honest) (b : bytes) (replied verified : bo
   (* the reply is itself a packet of the project's encoder under the S2C key of
      the request's cookie: the requesting client must accept it *)
   (if replied then verified else true).
+
+(* the cookies the listener re-issues in a reply (observed by opening each of
+   them with the server key its key id names): every one must be sealed under
+   the server's current key and yield exactly the algorithm and keys of the
+   session that made the request - "a cookie ... yields exactly the sealed
+   algorithm and keys", and the next request made with it must be accepted *)
+Definition C10_reissue_ok (replied cookies_ok : bool) : bool :=
+  if replied then cookies_ok else true.
+
+(* a client takes nothing from a packet it rejects: stored = the cookies found
+   in the (previously empty) cookie store of the client after the packet *)
+Definition C10_reject_clean (accepted : bool) (stored : list bytes) : bool :=
+  accepted || match stored with [] => true | _ :: _ => false end.
